@@ -208,6 +208,73 @@ def h_pflow_twice(max_iter):
     return h
 
 
+class NaNVal:
+    """an IEEE not-a-number inside an object array: absorbs arithmetic, every ordered comparison is false"""
+    __array_priority__ = 2000
+    _foreign_number = True
+
+    def _n(self, *a):
+        return self
+    __add__ = __radd__ = __sub__ = __rsub__ = __mul__ = __rmul__ = __truediv__ = __rtruediv__ = __neg__ = __abs__ = __pos__ = _n
+
+    def _f(self, o):
+        return False
+    __lt__ = __le__ = __gt__ = __ge__ = __eq__ = _f
+
+    def __ne__(self, o):
+        return True
+
+    def __hash__(self):
+        return 7
+
+    def __float__(self):
+        return float('nan')
+
+    def __repr__(self):
+        return 'nan'
+
+
+class NPNanVal(pysym.NumpyProxy):
+    """numpy semantics for object arrays that may hold NaNVal: max propagates NaN, isnan is element-wise"""
+
+    def max(self, a, *args, **kw):
+        flat = list(np.ravel(a))
+        for v in flat:
+            if isinstance(v, NaNVal):
+                return v
+        return np.max(a, *args, **kw)
+
+    def isnan(self, a):
+        if self._sym(a):
+            return np.array([isinstance(v, NaNVal) for v in np.ravel(a)]).reshape(np.shape(a))
+        return np.isnan(a)
+
+
+def h_test_init_nan(pattern):
+    """residual vector with NaN entries at the positions of `pattern` (the other entries symbolic)"""
+    def h(I):
+        import andes.routines.tds as TD
+        n = len(pattern)
+        f = astcut.quiet(TD.TDS.test_init)
+        test_init = pysym.rebind(f, np=NPNanVal(), logger=_Log(), Tab=lambda **k: NS(draw=lambda: '')) if I.symbolic else \
+            pysym.rebind(f, logger=_Log(), Tab=lambda **k: NS(draw=lambda: ''))
+        vals = [I.real(f'fg{i}') for i in range(n)]
+        fg = np.empty(n, dtype=object) if I.symbolic else np.zeros(n)
+        for i in range(n):
+            fg[i] = (NaNVal() if I.symbolic else np.nan) if pattern[i] else vals[i]
+        tol = I.real('tol')
+        I.assume(LT(0, tol))
+        xy = I.arr(*[f'xy{i}' for i in range(n)])
+        dae = NS(f=I.zeros(0), fg=fg, xy=xy, xy_name=[f'v{i}' for i in range(n)])
+        sysm = NS(dae=dae, j_update=lambda models: None, exist=NS(pflow_tds={}), no_check_init=[], config=NS(warn_limits=0),
+                  options={}, exit_code=0)
+        tds = NS(system=sysm, config=NS(tol=tol))
+        ret = test_init(tds)
+        return [('a residual that is not a number is never reported as a successful initialisation', ret is not True),
+                ('a failed initialisation test raises the exit code', (ret is True) or sysm.exit_code > 0)]
+    return h
+
+
 def h_test_init(n):
     def h(I):
         import andes.routines.tds as TD
@@ -311,6 +378,8 @@ def job(spec):
         return H.run('TDS.run epilogue with an earlier failure', h_exit_code_kept(), region=lambda v, c: c)
     if kind == 'pf2':
         return H.run(f'PFlow.run twice[max_iter={arg}]', h_pflow_twice(arg), max_paths=6000, region=lambda v, c: c.split(': ')[-1])
+    if kind == 'tinan':
+        return H.run(f'TDS.test_init[NaN pattern {arg}]', h_test_init_nan(arg), region=lambda v, c: c)
     if kind == 'ti':
         return H.run(f'TDS.test_init[n={arg}]', h_test_init(arg), region=lambda v, c: c)
     if kind == 'refuse':
@@ -338,10 +407,10 @@ def main():
     ck.bound(newton='max_iter in {0, 1, 2}' + (', 3' if thorough else ''), residual_vector='n <= 3', cases='<= 2 per invocation')
     ck.stub('nr_step -> arbitrary non-negative mismatch per iteration', 'np.isnan(...).any() -> free boolean', 'init/summary/report -> no-ops',
             'run_case / multiprocessing helpers -> outcome tables', 'logging and result tables -> no-ops (cut by AST)')
-    ck.assume('NaN is modelled by the free boolean of the isnan test only')
+    ck.assume('NaN is modelled by the free boolean of the isnan test (Newton loops) and by an absorbing not-a-number object with IEEE comparison semantics at fixed positions (test_init)')
     ck.out('NaN propagation inside numpy/C', 'unparsable input files (file I/O)', 'step-level facts: see C04/C06; solver singular path: C16')
     jobs = [('nr', k) for k in ((0, 1, 2, 3) if thorough else (0, 1, 2))] + [('pf', (k, 2)) for k in (0, 1, 2)] + [('pf', (1, 0))]
-    jobs += [('keep', 0), ('pf2', 1)] + [('ti', n) for n in (1, 2, 3)] + [('refuse', 'TDS'), ('refuse', 'EIG'), ('setup', 0)]
+    jobs += [('keep', 0), ('pf2', 1)] + [('ti', n) for n in (1, 2, 3)] + [('tinan', p) for p in ((1,), (1, 0), (0, 1), (0, 1, 0), (1, 1))] + [('refuse', 'TDS'), ('refuse', 'EIG'), ('setup', 0)]
     jobs += [('main', (1, False)), ('main', (2, True)), ('main', (2, False))]
     ck.merge(core.pmap(job, jobs))
     ck.sample({'PFlow.run': 'mismatch sequence mis0, mis1, ... >= 0, tol > 0, nan_seen_k booleans'})
